@@ -389,6 +389,9 @@ func policyAccept(k int, offer string, force bool) {
 			}
 			return nil
 		}, force, func(h [20]byte) bool { return h == ih }, ext, id)
+		if err != nil {
+			a.Close() // what the client does with a connection whose handshake failed
+		}
 		resC <- accRes{cipher, err, conn}
 	}()
 	hs := refwire.Handshake(ext, ih, pid)
@@ -581,23 +584,15 @@ func (p *prefixed) Read(b []byte) (int, error) {
 
 func main() {
 	run = vx.Begin("C12", "exploration",
-		"handshake pairs with both ends observed: (a) each of the four pads enumerated over a value set (quick: 64 values incl. 0,1,510,511; thorough: all 0..511) by the reference side x transport chunkings x initial-payload sizes {0,1,68,65535}; (b) PRNG rain<->rain and mixed pairs over keys (right/wrong), offers {1,2,3,4,6,0x80000002,...}, responder selection behaviours (honest, prefer-plain, not-offered, zero, multi-bit), corrupt VC; (c) btconn Accept/Dial policy matrix against reference endpoints. distinct = distinct case parameter tuples judged")
+		"handshake pairs with both ends observed: (a) each of the four pads enumerated over all values 0..511 by the reference side x transport chunkings x initial-payload sizes {0,1,68,65535}; (b) PRNG rain<->rain and mixed pairs over keys (right/wrong), offers {1,2,3,4,6,0x80000002,...}, responder selection behaviours (honest, prefer-plain, not-offered, zero, multi-bit), corrupt VC; (c) btconn Accept/Dial policy matrix against reference endpoints. distinct = distinct case parameter tuples judged")
 	logger.Disable()
 	vx.StartCanary()
 	var cases []caseSpec
 	var padVals []int
-	if run.Quick() {
-		padVals = []int{0, 1, 2, 3, 7, 8, 19, 20, 21, 95, 96, 97, 255, 256, 500, 503, 504, 505, 508, 509, 510, 511}
-		r := run.Rand("padvals", 0)
-		for len(padVals) < 64 {
-			padVals = append(padVals, r.Intn(512))
-		}
-	} else {
-		for i := 0; i < 512; i++ {
-			padVals = append(padVals, i)
-		}
-		run.SetExhaustive(false)
+	for i := 0; i < 512; i++ {
+		padVals = append(padVals, i)
 	}
+	run.SetExhaustive(true) // each of the four pads takes every value 0..511 (the other pad of the same side is PRNG)
 	chunkModes := run.N(3, 6)
 	iaSizes := []int{0, 1, 68, 65535}
 	k := 0
@@ -608,7 +603,7 @@ func main() {
 					r := run.Rand("padcase", k)
 					cs := caseSpec{Kind: kind, SKeyOK: true, Provide: []uint32{2, 3, 1}[r.Intn(3)], SelMode: r.Intn(2), ModeA: m, ModeB: (m + k) % 6, Seed: r.Int63()}
 					cs.IALen = iaSizes[k%4]
-					if run.Quick() && cs.IALen == 65535 && k%16 != 3 {
+					if run.Quick() && cs.IALen == 65535 && k%8 != 3 {
 						cs.IALen = 68
 					}
 					other := r.Intn(512)
@@ -626,7 +621,7 @@ func main() {
 	nPad := len(cases)
 	run.Set("pad_enumeration_cases", nPad)
 	run.Set("pad_values_per_pad", len(padVals))
-	nRand := run.N(1500, 60000)
+	nRand := run.N(4000, 100000)
 	for i := 0; i < nRand; i++ {
 		r := run.Rand("rand", i)
 		cs := caseSpec{Kind: []string{"rain-rain", "rain-rain", "ref-init", "ref-resp"}[r.Intn(4)], SKeyOK: r.Intn(6) != 0,
